@@ -69,27 +69,73 @@ def decode(data, table):
     hit = _DECODE_CACHE.get(key, 0)
     if hit != 0:
         return hit
-    rows = None
-    try:
-        raw = zlib.decompress(data)
-        conn = sqlite3.connect(':memory:')
-        try:
-            conn.deserialize(raw)
-            rows = tuple(conn.execute(
-                'SELECT path, timestamp, data, directory, name FROM %s'
-                % table).fetchall())
-        finally:
-            conn.close()
-    except (zlib.error, sqlite3.Error):
-        rows = None
+    rows = _decode(data, table)
     if len(_DECODE_CACHE) > 5000:
         _DECODE_CACHE.clear()
     _DECODE_CACHE[key] = rows
     return rows
 
 
+_SQLITE_MAGIC = b'SQLite format 3\x00'
+
+
+def _decode(data, table):
+    """Everything here parses bytes PRODUCED by the code under test: whatever
+    goes wrong is a property of those bytes (=> None, reported as
+    snapshot-unreadable), never a harness error."""
+    try:
+        raw = zlib.decompress(data)
+    except (zlib.error, TypeError, ValueError):
+        return None
+    # sqlite3.deserialize raises MemoryError on b'' and accepts garbage
+    # lazily: insist on a database header first
+    if len(raw) < 100 or not raw.startswith(_SQLITE_MAGIC):
+        return None
+    try:
+        conn = sqlite3.connect(':memory:')
+        try:
+            conn.deserialize(raw)
+            rows = conn.execute(
+                'SELECT path, timestamp, data, directory, name FROM %s'
+                % table).fetchall()
+        finally:
+            conn.close()
+    except (sqlite3.Error, MemoryError, OverflowError, ValueError,
+            TypeError, UnicodeError):
+        return None
+    out = []
+    for row in rows:
+        # path / directory / name must be text for the row to identify
+        # anything; other shapes make the snapshot unreadable
+        if not isinstance(row[0], str) or not isinstance(row[4], str):
+            return None
+        out.append(tuple(row))
+    return tuple(out)
+
+
 def seqno(name):
-    return int(name[-10:])
+    """Sequence number of a snapshot node name (written by the code under
+    test through ZooKeeper's sequence flag); -1 if it has none."""
+    tail = name[-10:]
+    if len(tail) == 10 and tail.isdigit():
+        return int(tail)
+    return -1
+
+
+def parse_event(name):
+    """'<object>,<timestamp>,...' -> (object, float or None).  Event node
+    names are written by the repo's publish(): an unparsable one is data,
+    not a harness error (no expiry clause can apply to it)."""
+    parts = name.split(',', 2)
+    stamp = None
+    if len(parts) >= 2:
+        try:
+            stamp = float(parts[1])
+        except ValueError:
+            stamp = None
+        if stamp is not None and stamp != stamp:
+            stamp = None
+    return parts[0], stamp
 
 
 def live_events(zk, root):
@@ -128,11 +174,11 @@ class ArchiveState:
         self.oplog_start = len(zk.oplog)
         trace = {}
         for path, name in live_events(zk, TRACE).items():
-            inst, stamp, _rest = name.split(',', 2)
-            trace[path] = (inst, float(stamp), name)
+            inst, stamp = parse_event(name)
+            trace[path] = (inst, stamp, name)
         server = {}
         for path, name in live_events(zk, SERVER_TRACE).items():
-            server[path] = (name.split(',', 1)[0], name)
+            server[path] = (parse_event(name)[0], name)
         self.universe = {'trace': trace, 'server': server,
                          'finished': live_finished(zk)}
         self.scheduled = set(zk.children(SCHEDULED) or [])
@@ -163,7 +209,7 @@ class ArchiveState:
         if kind is None:
             return
         snaps = snapshots(zk, kind)
-        names = sorted(snaps, key=seqno)
+        names = sorted(snaps, key=lambda n: (seqno(n), n))
         extra = len(names) - self.max_count(kind)
         self.prune_started[kind] = True
         if extra <= 0:
@@ -217,7 +263,11 @@ def evaluate(st, zk, api, now):
         snaps = snapshots(zk, kind)
         existing[kind] = snaps
         where = {}
-        for name in sorted(snaps, key=seqno):
+        for name in sorted(snaps, key=lambda n: (seqno(n), n)):
+            if seqno(name) < 0:
+                return _viol('C18:snapshot-unreadable',
+                             '%s/%s: node name carries no 10-digit sequence '
+                             'number' % (HIST[kind], name)), stats
             rows = decode(snaps[name], TABLE[kind])
             if rows is None:
                 return _viol('C18:snapshot-unreadable',
@@ -273,7 +323,7 @@ def evaluate(st, zk, api, now):
                              'is no longer live (snapshots holding it: %s)'
                              % (path, inst, [s for s, _r in found])), stats
             stats['kept_scheduled'] += 1
-        elif stamp >= t_ref - expiry:
+        elif stamp is not None and stamp >= t_ref - expiry:
             if not is_live:
                 return _viol('C18:young-event-archived',
                              '%s: timestamp %r, archive call ended at %r, '
@@ -318,7 +368,7 @@ def evaluate(st, zk, api, now):
     for inst in sorted(st.universe['finished']):
         data, mtime = st.universe['finished'][inst]
         is_live = inst in live_fin
-        text = data.decode() if data is not None else None
+        text = data.decode('utf-8', 'replace') if data is not None else None
         found = [(snap, row) for snap, row in
                  contents['finished'].get(inst, ())
                  if row[0] == FINISHED + '/' + inst and row[2] == text]
